@@ -84,6 +84,8 @@ def handleUp (l : Line) : IO Unit := do
   let reqs := ((l.getD "reqs").splitOn ";").filterMap parseReq
   let mut s : Sys := {}
   let mut step := 0
+  -- spec-level bookkeeping: days of the ids handed out so far
+  let mut days : List Nat := []
   for (req, cutFlag, day) in reqs do
     let env : Env := { day := day, user := user, time := Bytes.ofString "2006-01-02T15:04:05Z" }
     let o := processUpload env req s
@@ -95,7 +97,9 @@ def handleUp (l : Line) : IO Unit := do
     let own := match o.alloc with | some k => (s.db.queryUpload k).length | none => 0
     IO.println s!"obs {l.id} step={step} status={status} err={err} id={rid} fids={fids} trace={showTrace o.trace} nup={s.db.uploads.length} own={own} search={showSearch s.db} list={showList s.db} files={showFiles s.fs withData}"
     -- specification
-    let fail := Spec.UploadAtomic.mustFail env req (cutFlag != 0)
+    let refused := Spec.UploadAtomic.reachesAlloc req.parts && Spec.UploadAtomic.clockRefuses days day
+    let fail := Spec.UploadAtomic.mustFail env req (cutFlag != 0) days
+    if Spec.UploadAtomic.reachesAlloc req.parts && !refused then days := days ++ [day]
     let modelOk := match o.resp with | .ok _ => true | .error _ => false
     let mut kf : List String := []
     if cutFlag != 0 && modelOk && !Spec.UploadAtomic.structuralFault req then kf := kf ++ ["N20c"]
@@ -114,13 +118,30 @@ def idsRes (k : UKey) (j : Nat) : Res :=
     name := Bytes.ofString "X", line := Bytes.ofString s!"BenchmarkX {j}" }
 
 def handleIds (l : Line) : IO Unit := do
-  let day := (l.nat? "day").getD 0
   let ops := (l.getD "ops").splitOn ","
   let mut db : DB := {}
   let mut ids : List (Option UKey) := []
+  let mut rids : List UKey := []
   for op in ops do
-    let commit := op.endsWith "c"
-    let m := ((String.ofList (op.toList.takeWhile Char.isDigit)).toNat?).getD 0
+    -- op = R<day>.<seq>:<m><c|a>   (ReplaceUpload)
+    if op.startsWith "R" then
+      match ((op.drop 1).toString).splitOn ":" with
+      | [idstr, tail] =>
+        match idstr.splitOn "." with
+        | [d, q] =>
+          let k : UKey := ⟨d.toNat?.getD 0, q.toNat?.getD 0⟩
+          let m := ((String.ofList (tail.toList.takeWhile Char.isDigit)).toNat?).getD 0
+          db := replaceUpload k ((List.range m).map (idsRes k)) (tail.endsWith "c") db
+          if !rids.contains k then rids := rids ++ [k]
+        | _ => pure ()
+      | _ => pure ()
+      continue
+    -- op = <m><c|a>@<day>
+    let (head, day) := match op.splitOn "@" with
+      | [h, d] => (h, d.toNat?.getD 0)
+      | _ => (op, 0)
+    let commit := head.endsWith "c"
+    let m := ((String.ofList (head.toList.takeWhile Char.isDigit)).toNat?).getD 0
     match allocId day db.uploads with
     | none => ids := ids ++ [none]
     | some k =>
@@ -136,7 +157,8 @@ def handleIds (l : Line) : IO Unit := do
           | none => pure ()
   let idS := ids.map fun o => match o with | some k => idStr k | none => "!"
   let counts := ids.map fun o => match o with | some k => toString (db.queryUpload k).length | none => "0"
-  IO.println s!"obs {l.id} ids={joinOr idS} counts={joinOr counts} list={showList db} nup={db.uploads.length} all={db.results.length}"
+  let rcounts := rids.map fun k => s!"{idStr k}:{(db.queryUpload k).length}"
+  IO.println s!"obs {l.id} ids={joinOr idS} counts={joinOr counts} rcounts={joinOr rcounts} list={showList db} nup={db.uploads.length} all={db.results.length}"
   IO.println s!"spec {l.id} idsok=1"
 
 def handle (l : Line) : IO Unit := do
@@ -146,7 +168,7 @@ def handle (l : Line) : IO Unit := do
   | "ids" => handleIds l
   | "conc" =>
     -- concurrent creation: what `ids_unique_all_interleavings` promises for every schedule
-    IO.println s!"spec {l.id} distinct=1 fmt=1 rows=1 atomic=1"
+    IO.println s!"spec {l.id} distinct=1 fmt=1 mono=1 rows=1 atomic=1"
   | _ => pure ()
 
 end Driver.C20
